@@ -4,6 +4,7 @@ import (
 	"encoding/hex"
 	"fmt"
 	"math"
+	"os"
 	"strconv"
 	"strings"
 	"unicode/utf8"
@@ -220,3 +221,7 @@ func Spoil(m map[string]string) {
 	}
 	m["spoiled_by_caller"] = "1"
 }
+
+// Thorough reports whether the driver runs the thorough tier (generators of
+// real-time modes draw longer pauses then).
+func Thorough() bool { return os.Getenv("VERIF_TIER") == "thorough" }
